@@ -606,6 +606,34 @@ def _replay_model(cex):
                         f"field's residual is {true:.6e}")
     elif not info['exit_message']:
         msgs.append("exit=1 without message")
+    if not msgs and cfg['supplied'] and ref >= 100*np.finfo(float).tiny:
+        # second scenario: the supplied field is ALREADY converged but
+        # carries non-zero tangential boundary values (a warm start from a
+        # larger domain); the upper boundary edges enter no residual row
+        try:
+            kw2 = dict(kw)
+            kw2.pop('efield', None)
+            kw2['always_return'] = True
+            kw2['maxit'] = 200
+            good, info0 = emg3d.solve(model, sfield, **kw2)
+            if info0['exit'] == 0:
+                warm = emg3d.Field(grid, data=good.field.copy(),
+                                   frequency=freq)
+                amp = float(np.abs(good.field).max()) or 1.0
+                warm.fx[:, -1, -1] = amp
+                warm.fy[-1, :, -1] = amp
+                warm.fz[-1, -1, :] = amp
+                kw3 = dict(kw)
+                kw3['efield'] = warm
+                out = emg3d.solve(model, sfield, **kw3)
+                info3 = out[1] if isinstance(out, tuple) else out
+                if np.any(np.asarray(warm.field)[bnd] != 0):
+                    msgs.append(
+                        f"already converged supplied field: exit="
+                        f"{info3['exit']} ({info3['exit_message']}) but its "
+                        f"tangential boundary entries are not zero")
+        except Exception as e:     # noqa
+            msgs.append(f"warm-start scenario raised {e!r}"[:200])
     return bool(msgs), (f"real solve(||b||={ref:.3e}, tol={tol:g}, "
                         f"{_route(cfg)}, supplied={cfg['supplied']}): " +
                         ('; '.join(msgs) if msgs else 'all clauses hold'))
